@@ -13,7 +13,8 @@
      33/34 c    the transport conn's Close() begins / returns    35 c     AcceptStream first called on c
      36 c       a harness goroutine / handler calls Conn.Close() on c
      14 p s     emitter.Emit(EvtPeerConnectednessChanged{p, s})
-     37 / 38    Swarm.Close() called / returned
+     37 / 38    Swarm.Close() called / returned (the call that runs the shutdown)
+     42 / 43    a further, overlapping Swarm.Close() call from another goroutine called / returned
      39 c       the harness saw conn c listed in Swarm.Conns()
      40 p s     at quiescence: Connectedness(p) = s       41 c b   at quiescence: c is (not) listed in Conns()
      15         quiescent end of run                      16  some call never returned *)
@@ -26,7 +27,8 @@ Inductive vlab :=
 | VConnB (c : nat) | VConnE (c : nat) | VDiscB (c : nat) | VDiscE (c : nat)
 | VTCloseB (c : nat) | VTCloseE (c : nat) | VAccept (c : nat) | VCloseReq (c : nat)
 | VPub (p : nat) (s : cst) | VCloseCall | VCloseRet | VSeen (c : nat)
-| VObsConn (p : nat) (s : cst) | VObsListed (c : nat) (b : bool) | VQuiesce.
+| VObsConn (p : nat) (s : cst) | VObsListed (c : nat) (b : bool) | VQuiesce
+| VClose2Call | VClose2Ret.
 
 Definition vlab_eq_dec : forall a b : vlab, {a = b} + {a <> b}.
 Proof. decide equality; try apply Nat.eq_dec; try apply Bool.bool_dec; apply cst_eq_dec. Defined.
@@ -77,8 +79,9 @@ Definition vcheck (l : vlab) (r : list vlab) : list nat :=
   | VAddRet c true => ok (Nat.eqb (vcnt (VConnE c) r) 1) 1
   | VAddRet c false => ok (vmem VCloseCall r && Nat.eqb (vcnt (VConnB c) r) 0) 1
   | VPub p s => ok (negb (cst_eqb s (vlastpub p r)) || cst_eqb s NotConnected) 4 ++ ok live 3
-  | VCloseRet =>
-      (* every conn that was seen listed / announced has had Connected and Disconnected exactly once *)
+  | VCloseRet | VClose2Ret =>
+      (* when ANY Swarm.Close call returns: every conn that was seen listed / announced has had Connected and
+         Disconnected exactly once *)
       ok (vall r (fun c => negb (vmem (VSeen c) r || vmem (VConnB c) r)
                            || (Nat.eqb (vcnt (VConnE c) r) 1 && Nat.eqb (vcnt (VDiscE c) r) 1))) 9
       ++ ok (vall r (fun c => Nat.eqb (vcnt (VConnB c) r) (vcnt (VConnE c) r)
@@ -117,6 +120,7 @@ Definition vdec_label (code x y z : Z) : vwl :=
   | 33 => VW (VTCloseB c) | 34 => VW (VTCloseE c) | 35 => VW (VAccept c) | 36 => VW (VCloseReq c)
   | 14 => match dec_cst y with Some s => VW (VPub c s) | None => VWBad end
   | 37 => VW VCloseCall | 38 => VW VCloseRet | 39 => VW (VSeen c)
+  | 42 => VW VClose2Call | 43 => VW VClose2Ret
   | 40 => match dec_cst y with Some s => VW (VObsConn c s) | None => VWBad end
   | 41 => VW (VObsListed c (zbool y))
   | 15 => VW VQuiesce
